@@ -695,7 +695,11 @@ Theorem C17_check_meaning_scales :
   (forall (mn mx : Q), lf_emax mn mx =
    (snd (log_fold mn mx))%Q) /\
   (lg_tolv =
-   (fun v : Q => e9 * Qabs v)%Q).
+   (fun v : Q => e9 * Qabs v)%Q) /\
+  (* the minor ticks: TicksAtLevel(l < 0) on the folded positive domain [emin, emax] *)
+  (forall b e emin emax ro l v, (2 <= b)%Z -> (l < 0)%Z ->
+     (In v (log_ticks_pos b e emin emax ro l) <->
+      exists k j, (le_out_lo e <= k <= le_out_hi e)%Z /\ (1 <= j <= b - 1)%Z /\ v = inject_Z j * qpow b k /\ emin <= v /\ v <= emax)).
 Proof. exact case_meaning_scales. Qed.
 Print Assumptions C17_check_meaning_scales.
 
